@@ -770,7 +770,7 @@ fn gen_dag(rng: &mut Rng) -> Vec<Cm> {
         7..=8 => rng.range(8, 14),
         _ => rng.range(12, 26),
     } as usize;
-    let time_mode = rng.below(5);
+    let time_mode = rng.below(7);
     let mut d: Vec<Cm> = Vec::new();
     for i in 0..n {
         let np = if i == 0 {
@@ -795,6 +795,8 @@ fn gen_dag(rng: &mut Rng) -> Vec<Cm> {
             1 => 10 + i as i64,                                     // strictly monotone
             2 => 10 + (i as i64) / 2,                               // monotone with pairs of equal times
             3 => 10 + i as i64 + rng.range(-3, 3),                  // mild skew
+            5 => 60 - i as i64,                                     // upside down: every parent is newer than its children
+            6 => 30 - (i as i64) / 2 + rng.range(0, 1),             // upside down with collisions
             _ => rng.range(0, 40),                                  // arbitrary
         };
         d.push(Cm { time: time.max(0), gen: 0, parents: ps });
@@ -849,7 +851,45 @@ fn pick_set(rng: &mut Rng, n: usize, max: usize, prefer_high: bool) -> Vec<usize
     v
 }
 
+/// a chain with side branches off its lower part; the end sits high on the chain, tips in the middle and on the
+/// branches, times upside down or arbitrary: hidden-ness has to travel through commits that were processed before
+fn gen_hidden_ladder(rng: &mut Rng) -> Q {
+    let k = rng.range(6, 12) as usize;
+    let upside_down = rng.chance(2, 3);
+    let second_parent_chain = rng.chance(3, 4);
+    let mut d: Vec<Cm> = Vec::new();
+    // commit 0 is a root every chain commit has as FIRST parent; the chain itself runs along second parents
+    for i in 0..k {
+        let time = if upside_down { 60 - i as i64 } else { rng.range(0, 40) };
+        let parents = match i {
+            0 | 1 => vec![],
+            _ if second_parent_chain => vec![0, i - 1],
+            _ => vec![i - 1],
+        };
+        d.push(Cm { time, gen: 0, parents });
+    }
+    let nb = rng.range(1, 3) as usize;
+    let mut tips = vec![rng.range(2, k as i64 - 2) as usize];
+    for _ in 0..nb {
+        let at = 1 + rng.below((k as u64) / 2) as usize;
+        let time = if upside_down { 60 - d.len() as i64 } else { rng.range(0, 40) };
+        d.push(Cm { time, gen: 0, parents: vec![at] });
+        tips.push(d.len() - 1);
+    }
+    if rng.chance(1, 2) {
+        tips.reverse();
+    }
+    assign_gens(rng, &mut d);
+    let sorting = *rng.pick(&["date", "topo"]);
+    let parents = if second_parent_chain || rng.chance(1, 4) { "first" } else { "all" };
+    let ends = vec![rng.range(k as i64 - 2, k as i64 - 1) as usize];
+    Q { op: "topo".into(), opts: vec![sorting.into(), parents.into()], cutoff: 0, tips, ends, rej: vec![], d }
+}
+
 fn gen_q(rng: &mut Rng) -> Q {
+    if rng.chance(1, 12) {
+        return gen_hidden_ladder(rng);
+    }
     let mut d = gen_dag(rng);
     let n = d.len();
     // rare: a missing parent
